@@ -618,9 +618,6 @@ func TestC36(t *testing.T) {
 		cases = append(cases, c36Gen(fx, rng, "pebble"))
 	}
 	vfParallel(len(cases), 4, func(i int) {
-		if r.Violations() >= 12 {
-			return
-		}
 		judge(cases[i])
 	})
 	r.Finish(1000)
